@@ -31,6 +31,7 @@ def run(c):
     r8_logic_pairing(c)
     from rules import c03
     c03.r7(c, rid="C01.R9")
+    r10_all_rows_all_rules(c)
 
 
 # --------------------------------------------------------------------------- R1
@@ -373,6 +374,14 @@ def r5_disorder(c):
         if v is None:
             continue
         alts = [v.body, v.orelse] if isinstance(v, ast.IfExp) else [v]
+        # a name chosen before the loop (`reordered_op = pops[-1] if moved_to_affected else Op.MOVED`, possibly as an if-statement): all its definitions
+        more = []
+        for a_ in alts:
+            if isinstance(a_, ast.Name):
+                for n_ in walk_no_nested(fn):
+                    if isinstance(n_, ast.Assign) and len(n_.targets) == 1 and isinstance(n_.targets[0], ast.Name) and n_.targets[0].id == a_.id and not any(x is n_ for x in ast.walk(loop)):
+                        more += [n_.value.body, n_.value.orelse] if isinstance(n_.value, ast.IfExp) else [n_.value]
+        alts = alts + more
         raised = isinstance(p_.env.get(flag), ast.Constant) and p_.env[flag].value is True
         if any(op_const(a_) == "MOVED" for a_ in alts):
             n_moved += 1
@@ -489,3 +498,36 @@ def r8_logic_pairing(c):
         c.check("C01.R8", G.equivalent(fd, fp), repo.loc(m, ps_[0]), f"_compile_patching/{what}-pair", f"the {what} diff logic is selected under {G.show(fd)} but the {what} patch logic under "
                 f"{G.show(fp)}: a rule can get the {what} diff with another patch logic — its MOVED / rewritten entries are then re-typed in place (nothing moves, the next diff is "
                 "not empty, the same commands are emitted on every run)", key_text=f"{what}-pair")
+
+
+def r10_all_rows_all_rules(c):
+    repo = c.repo
+    c.rule("C01.R10", "nothing of the trees or of the rulebook is left out before the logics run: (a) annlib.rulebook.common.call_diff_logic produces diff items only by calling the "
+                      "rows' diff logics — one exit, at the end, returning what the logic calls accumulated; no shortcut return, no DiffItem built by call_diff_logic itself (a "
+                      "shortcut that answers for an 'unchanged' block drops the rows nested below it, which a %rewrite parent re-types and re-sends); (b) "
+                      "patching._find_rules_matches collects *every* rule whose regexp matches the row (one append per match inside the loop over all rules, the list returned "
+                      "after the loop; the only early exit is the ignore arm) — _select_match merges the children rules of all of them, a first-match return loses the children "
+                      "rules of the later overlapping block rules (`interface */Tunnel.+/` before `interface *`)")
+    cm = repo.module("annet.annlib.rulebook.common")
+    fn = repo.func("annet.annlib.rulebook.common", "call_diff_logic")
+    c.count("functions", 2)
+    rets = [n for n in walk_no_nested(fn) if isinstance(n, ast.Return)]
+    last = [st for st in fn.body if not isinstance(st, ast.Pass)][-1]
+    early = [r for r in rets if r is not last]
+    c.check("C01.R10", not early and isinstance(last, ast.Return), repo.loc(cm, early[0] if early else fn), "call_diff_logic/single-exit", f"`{norm(early[0])[:70] if early else ''}` answers before the rows "
+            "were handed to their diff logics", key_text="early-return")
+    built = [x for x in calls_in(fn) if call_name(x).split(".")[-1] == "DiffItem"]
+    c.check("C01.R10", not built, repo.loc(cm, built[0] if built else fn), "call_diff_logic/items-from-logics-only", "call_diff_logic builds diff items itself instead of leaving it to the diff logic of the "
+            "rows (children and op of such an item bypass base_diff / rewrite_diff)", key_text="own-items")
+    pm = repo.module(PATCHING)
+    fr = repo.func(PATCHING, "_find_rules_matches")
+    gm = GuardMap(fr)
+    apps = [x for x in calls_in(fr) if isinstance(x.func, ast.Attribute) and x.func.attr == "append" and gm.in_loop(x)]
+    rets = [n for n in walk_no_nested(fr) if isinstance(n, ast.Return)]
+    tail = [st for st in fr.body if not isinstance(st, ast.Pass)][-1]
+    ok = len(apps) == 1 and isinstance(tail, ast.Return) and isinstance(tail.value, ast.Name) and norm(apps[0].func.value) == tail.value.id
+    inloop = [r for r in rets if gm.in_loop(r)]
+    # early exits inside the loop: only the ignore arm, answering "no match"
+    bad = [r for r in inloop if not ((isinstance(r.value, (ast.List, ast.Tuple)) and not r.value.elts) and any("ignore" in a for a in G.atoms(gm.formula(r, G.GuardEnv()))))]
+    c.check("C01.R10", ok and not bad, repo.loc(pm, bad[0] if bad else fr), "_find_rules_matches/collects-every-match", "the matches of a row are not all collected (first match returned, or the "
+            "list built otherwise): the children rules of further matching block rules are lost, rows only they know are never diffed", key_text="first-match")
